@@ -194,7 +194,7 @@ def _run_init(it, ch, large, sweep, autoscale=True):
 def _f65(ctx, mdl, large, sweep):
     fi = mdl.func(Q)
     ch = _chain(large, sweep)
-    opts = {'abstract_values': {Q: ch['vals']}}
+    opts = {'abstract_values': {'*': ch['vals']}}
 
     def th(it):
         o = _run_init(it, ch, large, sweep)
@@ -384,7 +384,7 @@ def _f65_noautoscale(ctx, mdl):
     """autoscale_radius=False: a too small radius must raise, never be silently kept"""
     fi = mdl.func(Q)
     ch = _chain(True, False)
-    opts = {'abstract_values': {Q: ch['vals']}}
+    opts = {'abstract_values': {'*': ch['vals']}}
 
     def th(it):
         o = _run_init(it, ch, True, False, autoscale=False)
